@@ -208,13 +208,14 @@ def reserved_flow(ctx, rep, cl):
         # a field: look at its last store before `upto`
         if term[0] == "attr" and term[1] == SELF:
             last = None
+            last_i = -1
             for i, e in enumerate(path.effects[:upto]):
                 if e.kind == "store_attr" and e.a == SELF and e.b == term[2]:
-                    last = e.c
+                    last, last_i = e.c, i
             if last is not None and rw in set(subterms(last)):
                 return True
-            # mutated in place afterwards
-            for e in path.effects[:upto]:
+            # mutated in place after the last (re)binding of the field
+            for e in path.effects[last_i + 1:upto]:
                 if e.kind == "call" and e.a[1][0] == "attr" and e.a[1][1] == term and e.a[1][2] in ("update", "__ior__") and rw in set(subterms(e.a)):
                     return True
         # the module-level default set: updated in place before
@@ -423,6 +424,12 @@ def c10(ctx, rep):
     for path in av.paths:
         if path.returned() == av.raw and path.truth(("compare", ("in",), (av.V, av.reserved))) is True:
             n_res += 1
+    from .report import Report
+    sub = Report("C08", quiet=True)
+    secret_flow.check_anonymize_value(ctx, sub, "C08")
+    for o in sub.obligations:
+        if o["clause"] in ("C08.reserved-checked-first", "C08.unchanged-only-when-licensed"):
+            rep.ob("C10." + o["clause"].split(".", 1)[1], o["construct"], o["ok"], o["detail"], o["where"], o.get("witness"), key="C10.%s|%s" % (o["clause"].split(".", 1)[1], o["construct"]))
     rep.ob("C10.reserved-secret-unchanged", "_anonymize_value", n_res >= 1, "a secret value that is a reserved word is returned unchanged (paths: %d)" % n_res, W(av.fn), key="C10.reserved-secret-unchanged|_anonymize_value")
     # wiring + stage order
     f_fa = p.find_function("FileAnonymizer.__init__")
